@@ -64,7 +64,13 @@ def crossratio(
             raise NotConcurrent("The lines are not concurrent: " + str([a, b, c, d]))
 
         from_point = a.meet(b)
-        a, b, c, d = a.base_point, b.base_point, c.base_point, d.base_point
+        if a.dim == 2:
+            # represent each line by its point on a transversal that does not pass through the common point
+            # (an arbitrary base point may coincide with the common point)
+            transversal = LineCollection.from_array(np.conj(from_point.array))
+            a, b, c, d = a.meet(transversal), b.meet(transversal), c.meet(transversal), d.meet(transversal)
+        else:
+            a, b, c, d = a.base_point, b.base_point, c.base_point, d.base_point
 
     elif (
         isinstance(a, PlaneTensor)
